@@ -21,6 +21,7 @@ returns), ['spawn', which] (fresh tasks are attached), ['setfile'].
 from __future__ import annotations
 
 import asyncio
+import contextvars
 import logging
 import os
 import random
@@ -43,6 +44,10 @@ STATE_CLASS = {'VIRGIN': 'VirginState', 'QUEUED': 'QueuedState', 'INITIALIZING':
 REASONS = {0: 'Blocked', 1: 'Requested', 2: 'Cancelled', 3: 'File not shared.', 4: 'File read error.', 5: 'Queued'}
 REASON_NO = {v: k for k, v in REASONS.items()}
 T0 = 1000.0
+# the call on whose behalf code is running: set by the task that awaits the call, inherited by every task the real code
+# creates on the way (gather / ensure_future / shield copy the context), so attribution does not depend on the code
+# doing all its work in the caller's own task
+_CALL = contextvars.ContextVar('c03_call', default=None)
 logging.getLogger('aioslsk').setLevel(logging.CRITICAL + 1)      # refusals log a warning each
 
 # ---- the documented graph, as the monitor reads it (the frozen Lean spec is cross-checked against this
@@ -137,15 +142,11 @@ async def _scenario(loop, case, path):
     import aiofiles.os as real_asyncos
 
     log = []            # chronological: dicts {kind, who, …, fx}
-    task_ids = {}       # asyncio task -> call id
     gate = _Gate(loop)
     rec = {'on': False}
 
     def who():
-        try:
-            return task_ids.get(asyncio.current_task())
-        except RuntimeError:
-            return None
+        return _CALL.get()
 
     def add(kind, **kw):
         kw.update(kind=kind, who=kw.get('who', who()), fx=os.path.exists(path))
@@ -278,6 +279,7 @@ async def _scenario(loop, case, path):
     ev_seen = ret_seen = 0
 
     async def runner(cid, coro, mgr):
+        _CALL.set(cid)          # this task's own context (a task runs in a copy of its creator's)
         try:
             r = await coro
             if r is True or (mgr and r is None):
@@ -308,7 +310,6 @@ async def _scenario(loop, case, path):
     def schedule(cid, coro, mgr):
         add('sched', who=cid, mgr=bool(mgr))
         task = loop.create_task(runner(cid, coro, mgr))
-        task_ids[task] = cid
         runners.append(task)
 
     used = set()
